@@ -495,11 +495,43 @@ def judge_preset(sph, tabs, row, meth, rpts, rw, cen, rotate, obs):
     return judge_grid(sph, tabs, meth, rpts, rw, obs["degs"], cen, rotate, obs)
 
 
-def make_rgrid(r, w):
+DTYPES = ["float64", "int64", "int32", "float32"]
+
+
+def make_array(vals, dtype="float64", layout="c"):
+    """The given numbers as an array of the given dtype (they are representable in it), C-contiguous / a strided view
+    of a larger buffer / read-only."""
+    a = np.array(vals, dtype=dtype)
+    if not np.array_equal(a.astype(float), np.array(vals, dtype=float)):
+        raise ValueError(f"{vals} is not representable as {dtype}")
+    if layout == "strided":
+        big = np.full(2 * len(a) + 1, 7, dtype=dtype)
+        big[1::2] = a
+        a = big[1::2]
+    elif layout == "readonly":
+        a.setflags(write=False)
+    return a
+
+
+def make_rgrid(r, w, rdtype="float64", wdtype="float64", layout="c"):
     from grid.basegrid import OneDGrid
 
     dom = (0, np.inf) if min(r) >= 0 else None     # a negative point is for AtomGrid to reject, not OneDGrid
-    return OneDGrid(np.array(r, dtype=float), np.array(w, dtype=float), dom)
+    return OneDGrid(make_array(r, rdtype, layout), make_array(w, wdtype, layout), dom)
+
+
+def make_center(d):
+    """centre of a call as the caller passes it: float array (default), list of floats, integer array, list of ints"""
+    c, kind = d["center"], d.get("center_kind", "array")
+    if c is None:
+        return None
+    if kind == "list":
+        return [float(x) for x in c]
+    if kind == "intlist":
+        return [int(x) for x in c]
+    if kind == "intarray":
+        return np.array([int(x) for x in c], dtype=int)
+    return np.array(c, dtype=float)
 
 
 def observe(fn):
@@ -522,15 +554,30 @@ def small_degrees(tabs, meth, limit):
     return [d for d, s in sorted(tabs[f"{P}_DEGREES"].items()) if s <= limit]
 
 
-def rand_radial(rng, n):
-    ks = sorted(rng.sample(range(-4, 5), n))
+def rand_radial(rng, n, integer=False):
+    """radii and weights in {0, 2^k}; ascending, now and then shuffled / descending; integer-valued on request"""
+    ks = sorted(rng.sample(range(0, 6) if integer else range(-4, 5), n))
     r = [2.0 ** k for k in ks]
     if rng.random() < 0.35:
         r[0] = 0.0
-    if rng.random() < 0.2:
+    t = rng.random()
+    if t < 0.2:
         rng.shuffle(r)
-    w = [rng.choice([0.0, 0.125, 0.25, 0.5, 1.0, 2.0, 4.0, 8.0]) for _ in range(n)]
+    elif t < 0.3:
+        r.reverse()
+    w = [rng.choice([0.0, 1.0, 2.0, 4.0, 8.0] if integer else [0.0, 0.125, 0.25, 0.5, 1.0, 2.0, 4.0, 8.0]) for _ in range(n)]
     return r, w
+
+
+def rand_storage(rng, k=None):
+    """(points dtype, weights dtype, layout): the first 16 calls run through every dtype combination"""
+    if k is not None and k < 16:
+        rd, wd = DTYPES[k // 4], DTYPES[k % 4]
+    elif rng.random() < 0.6:
+        rd, wd = "float64", "float64"
+    else:
+        rd, wd = rng.choice(DTYPES), rng.choice(DTYPES)
+    return rd, wd, rng.choice(["c", "c", "strided", "readonly"])
 
 
 def rand_center(rng):
@@ -599,9 +646,8 @@ def build_call(spec_d):
     """spec_d: dict describing one call; returns (status, grid)."""
     from grid.atomgrid import AtomGrid
 
-    rg = make_rgrid(spec_d["r"], spec_d["w"])
-    kw = {"center": None if spec_d["center"] is None else np.array(spec_d["center"]), "rotate": spec_d["rotate"],
-          "method": spec_d["method"]}
+    rg = make_rgrid(spec_d["r"], spec_d["w"], spec_d.get("rdtype", "float64"), spec_d.get("wdtype", "float64"), spec_d.get("layout", "c"))
+    kw = {"center": make_center(spec_d), "rotate": spec_d["rotate"], "method": spec_d["method"]}
     if spec_d["via"] == "init":
         kind, vals = spec_d["spec"]
         if kind == "sizes":
@@ -614,8 +660,12 @@ def build_call(spec_d):
 
 
 def call_text(d):
-    c = "None" if d["center"] is None else d["center"]
-    base = f"rgrid=OneDGrid({d['r']}, {d['w']}, (0, inf)), center={c}, rotate={d['rotate']}, method='{d['method']}'"
+    ck = d.get("center_kind", "array")
+    c = "None" if d["center"] is None else (str([int(x) for x in d["center"]]) + (" (int array)" if ck == "intarray" else " (list)")
+                                          if ck in ("intarray", "intlist") else str(d["center"]) + (" (list)" if ck == "list" else ""))
+    rd, wd, lay = d.get("rdtype", "float64"), d.get("wdtype", "float64"), d.get("layout", "c")
+    sto = "" if (rd, wd, lay) == ("float64", "float64", "c") else f" [points {rd}, weights {wd}" + ("" if lay == "c" else f", {lay} arrays") + "]"
+    base = f"rgrid=OneDGrid({d['r']}, {d['w']}, (0, inf)){sto}, center={c}, rotate={d['rotate']}, method='{d['method']}'"
     kind, vals = d["spec"]
     if d["via"] == "init":
         return f"AtomGrid({'sizes' if kind == 'sizes' else 'degrees'}={vals}, {base})"
@@ -803,18 +853,21 @@ def _run(ctx: Ctx):
         lim = 72 if meth == "ahrens_beylkin" else LIMIT
         if meth == "ahrens_beylkin":
             n = min(n, 2)
-        r, w = rand_radial(rng, n)
+        rd, wd, lay = rand_storage(rng, k)
+        integer = rd.startswith("int") or wd.startswith("int")
+        r, w = rand_radial(rng, n, integer)
         rot = rand_rotate(rng, n)
         if k % 23 == 7:
             rot = rng.choice([-1, 2 ** 32 - n, 2 ** 32])      # rejected seeds
         if k % 29 == 11:
-            r[rng.randrange(n)] = -0.5                        # rejected radial grid
+            r[rng.randrange(n)] = -1.0 if integer else -0.5   # rejected radial grid
         calls.append({"via": "init", "method": meth, "r": r, "w": w, "spec": rand_request(rng, tabs, meth, n, lim),
-                      "center": rand_center(rng), "rotate": rot})
+                      "center": rand_center(rng), "rotate": rot, "rdtype": rd, "wdtype": wd, "layout": lay})
     for k in range(n_pruned):
         meth = rng.choice(["lebedev", "lebedev", "spherical", "maxdet"])
         n = rng.randint(2, 5)
-        r, w = rand_radial(rng, n)
+        rd, wd, lay = rand_storage(rng)
+        r, w = rand_radial(rng, n, rd.startswith("int") or wd.startswith("int"))
         radius = rng.choice([0.5, 1.0, 1.5, 2.0, 0.75])
         ns = rng.randint(0, 3)
         # sector bounds such that radius*bound hits radial points exactly now and then (tests > versus >=)
@@ -832,7 +885,11 @@ def _run(ctx: Ctx):
         if rng.random() < 0.08:
             spec = (spec[0], spec[1] + [degs[0]])              # one sector degree too many
         calls.append({"via": "pruned", "method": meth, "r": r, "w": w, "spec": spec, "radius": radius, "rsec": rsec,
-                      "center": rand_center(rng), "rotate": rand_rotate(rng, n)})
+                      "center": rand_center(rng), "rotate": rand_rotate(rng, n), "rdtype": rd, "wdtype": wd, "layout": lay})
+    for d in calls:      # how the caller hands over the centre: float array, list, integer array, list of ints
+        c = d["center"]
+        kinds = ["array", "array", "list"] + (["intarray", "intlist"] if c is not None and all(float(x).is_integer() for x in c) else [])
+        d["center_kind"] = "array" if c is None else rng.choice(kinds)
 
     for ci, d in enumerate(calls):
         n = len(d["r"])
@@ -842,6 +899,8 @@ def _run(ctx: Ctx):
         key = call_text(d)
         ctx.case(("call", key))
         ctx.count(f"{d['via']}:{meth}:{'rot' if rotate else 'norot'}:{d['spec'][0]}")
+        ctx.count(f"storage:points={d['rdtype']}:weights={d['wdtype']}")
+        ctx.count(f"storage:layout={d['layout']}:centre={d['center_kind']}")
         rg_ok = n > 0 and all(x >= 0 for x in d["r"])
         rot_ok = isinstance(rotate, int) and 0 <= rotate < 2 ** 32 - n
         req = (requested_degrees(tabs, meth, n, d["spec"]) if d["via"] == "init" else pruned_request(tabs, d))
@@ -905,7 +964,7 @@ def _run(ctx: Ctx):
         if st3 != "ok" or not (np.array_equal(g2.points, obs["pts"]) and np.array_equal(g2.weights, obs["wts"])):
             report(n, "rotation_keeps_radii", key + " (twice)", "differs", f"{key}: constructing the grid twice gives different points/weights", {"call": d})
         shift = [rng.randint(-4, 4) / 4.0 for _ in range(3)]
-        d2 = dict(d, center=[c + s for c, s in zip(center, shift)])
+        d2 = dict(d, center=[c + s for c, s in zip(center, shift)], center_kind="array")
         st4, g3 = build_call(d2)
         if st4 != "ok" or not np.array_equal(g3.weights, obs["wts"]) or not close(g3.points, obs["pts"] + np.array(shift), max(map(abs, center)) + 8.0, ulps=8):
             report(n, "translate", call_text(d2), "differs", f"{call_text(d2)}: moving the centre by {shift} does not translate the points / changes the weights", {"call": d2, "shift": shift})
